@@ -143,7 +143,7 @@ func (m *MTU) unmarshal(b []byte) error {
 		return fmt.Errorf("ndp: unexpected mtu option length: %d", l)
 	}
 
-	*m = MTU(binary.BigEndian.Uint32(b[2:6]))
+	*m = MTU(binary.BigEndian.Uint32(b[4:8])) // type, length, 2 bytes reserved, then the MTU
 
 	return nil
 }
